@@ -266,7 +266,7 @@ pub fn chain_from_scripts(coin: Coin, scripts: &[Vec<u8>], values: &[u64], per_t
         outputs: vec![OutSpec { value: 5_000_000_000, script: { let mut s = vec![0x76, 0xa9, 0x14]; s.extend([0x11; 20]); s.extend([0x88, 0xac]); s } }],
         segwit: false,
     };
-    let mut flush = |txs: &mut Vec<TxSpec>, blocks: &mut Vec<BlockSpec>| {
+    let flush = |txs: &mut Vec<TxSpec>, blocks: &mut Vec<BlockSpec>| {
         let n = blocks.len();
         blocks.push(BlockSpec { version: 1, time: time0.wrapping_add(600 * n as u32).max(1), bits: 0x1d00ffff, nonce: n as u32, auxpow: None, coinbase: mk_cb(n), txs: std::mem::take(txs), dup_coinbase: None });
     };
